@@ -306,3 +306,54 @@ func asIf(st ast.Stmt) (cond ast.Expr, body, els []ast.Stmt, ok bool) {
 	}
 	return nil, nil, nil, false
 }
+
+// resolveBool looks through a named condition: a boolean local with exactly
+// one definition `cv := <expr>` stands for that expression (`cv := x != nil;
+// if cv {…}` is `if x != nil {…}`). Definitions are searched in f and in the
+// functions enclosing it.
+func resolveBool(f *eng.Fn, e ast.Expr) ast.Expr {
+	for depth := 0; depth < 4; depth++ {
+		idn, ok := ast.Unparen(e).(*ast.Ident)
+		if !ok {
+			return e
+		}
+		v, ok := f.Info().ObjectOf(idn).(*types.Var)
+		if !ok || !eng.IsLocal(v) {
+			return e
+		}
+		if b, ok := v.Type().Underlying().(*types.Basic); !ok || b.Kind() != types.Bool {
+			return e
+		}
+		var rhs ast.Expr
+		n := 0
+		start := f
+		if enc := f.Prog.Enclosing(v.Pos()); enc != nil {
+			start = enc // the variable may live in a closure nested in f
+		}
+		for df := start; df != nil; df = df.Parent {
+			for _, d := range df.Graph().DefsOf(v) {
+				if d.Kind == eng.DefParam {
+					continue
+				}
+				n++
+				if d.Kind == eng.DefPlain {
+					rhs = d.RHS
+				}
+			}
+		}
+		if n != 1 || rhs == nil {
+			return e
+		}
+		e = rhs
+	}
+	return e
+}
+
+// asIfIn is asIf with the condition looked through resolveBool.
+func asIfIn(f *eng.Fn, st ast.Stmt) (cond ast.Expr, body, els []ast.Stmt, ok bool) {
+	cond, body, els, ok = asIf(st)
+	if ok {
+		cond = resolveBool(f, cond)
+	}
+	return
+}
